@@ -14,6 +14,9 @@ abbrev ErasedInv (s : State) : Prop :=
 theorem erasedInv_init (nq ng max : Nat) : ErasedInv (initState nq ng max) := by
   refine ⟨?_, ?_, ?_, ?_, ?_, ?_, ?_, ?_⟩ <;> intros <;> simp_all [initState, State.jobK, State.isReady]
 
+theorem erasedInv_initP (ps : List Bool) (ng max : Nat) : ErasedInv (initStateP ps ng max) := by
+  refine ⟨?_, ?_, ?_, ?_, ?_, ?_, ?_, ?_⟩ <;> intros <;> simp_all [initStateP, initState, State.jobK, State.isReady]
+
 theorem ErasedInvF.congr {K K' D D' A A' F F' Rd Rd' NA NA'} (h : ErasedInvF K D A F Rd NA)
     (hK : ∀ i, K' i = K i) (hD : ∀ i, D' i = D i) (hA : ∀ i, A' i = A i) (hF : ∀ i, F' i = F i) (hR : ∀ i, Rd' i = Rd i) (hN : NA' = NA) :
     ErasedInvF K' D' A' F' Rd' NA' := by
